@@ -228,7 +228,7 @@ def parser(literal_string, simple_ident, all_columns=None, sqlserver=False):
 
         timestamp = (
             time_functions("op")
-            + (literal_string("params") | MatchFirst([keyword(t) / (lambda t: t.lower()) for t in times])("params"))
+            + (literal_string("params") | MatchFirst([keyword(t) for t in times])("params"))
         ) / to_json_call
 
         extract = (
